@@ -419,7 +419,9 @@ static int repair(struct snapraid_state* state, int rehash, unsigned pos, unsign
 				/* if the hash is invalid we cannot check the result */
 				/* this could happen if we have lost this information */
 				/* after an aborted sync */
-				if (hash_is_invalid(failed[j].block->hash)) {
+				/* with a reduced hash size the special INVALID and ZERO values */
+				/* cannot be recognized, and then no past hash can be trusted */
+				if (BLOCK_HASH_SIZE != HASH_MAX || hash_is_invalid(failed[j].block->hash)) {
 					/* it may contain garbage */
 					failed[j].is_outofdate = 1;
 
